@@ -121,12 +121,32 @@ class ManualRun:
                 sys.stdout = self._out
             try:
                 self.sim = Simulator(self.top)
+                self._body = body
                 async def testbench(ctx):
                     self.ctx = ctx
-                    body(self)
+                    self._body(self)
                 self.sim.add_testbench(testbench)
                 self.sim.run()
             finally:
                 sys.stdout = old_stdout
                 self.decisions = S.decisions
+        return self
+
+    def rerun(self, body):
+        """Crash/restart: Simulator.reset() on the same simulator object (whatever state the previous run left it in,
+        e.g. after an AssertionError escaped from the middle of a delta cycle), then the testbench starts over."""
+        with scheduler(self.sched_mode, self.sched_seed) as S:
+            old_stdout = sys.stdout
+            if self.capture_stdout:
+                self._out = io.StringIO()
+                sys.stdout = self._out
+            try:
+                self.levels = {line: 0 for line in self.top.lines}
+                self.events = []
+                self._body = body
+                self.sim.reset()
+                self.sim.run()
+            finally:
+                sys.stdout = old_stdout
+                self.decisions += S.decisions
         return self
